@@ -4,10 +4,12 @@
 // line prefixed "| "); lean/Driver/C02.lean parses the files with the Lean VHDL parser, interprets them under the recorded
 // stimulus and checks every CHECK line.  The scratch directory lives under /var/tmp and is removed after each case.
 //
-// usage: c02 <seed> <ncases> <nsteps> [flags] [only-case]
+// usage: c02 <seed> <ncases> <nsteps> [flags] [only-case (-1 = all)] [long-run cycles (0 = 6..17 cycles)]
 //   flags (bit mask, default 0xff): 1 hierarchy (Area entities)  2 reset kinds/polarity  4 falling/both-edge clocks  8 output modes
 //                                   16 extra blocks (memories, tristate pins, wide arithmetic)  32 undefined stimuli (half of the cases)
 //                                   64 first stimuli issued at power-on, before any simulator event (half of the cases)
+//                                   256 clock frequencies incl. periods that are not a whole number of ps (300/150/600/3 MHz, 700/3 MHz, 1/7 GHz, 7/3 Hz)
+//                                   512 half of the single-edge runs end 100 ps behind a clock edge with reads made right after that edge
 //                                   128 bidirectional pins released with 'Z' by the simulation process while the design drives (half of the cases)
 #include <gatery/pch.h>
 #include "designgen.h"
@@ -51,11 +53,18 @@ struct Opts {
 	bool areas = false, names = false;
 	unsigned style = 0;       // 0: set, OnClk, read (classic)  1: set, WaitFor(1/3), read, WaitFor(1/3), read, OnClk  2: set, WaitStable, read, OnClk
 	bool undefStim = false;
+	unsigned freq = 0;        // index into kFrequencies (0 = 100 MHz); several have a period that is not a whole number of ps
+	bool endBehindEdge = false; // the run ends 100 ps behind a clock edge with reads made right after that edge (vectors a few ps behind an edge)
 	bool triNaive = false;    // bidirectional pin: the simulation process releases the pin with 'Z' while the design drives it
 	bool setAtPowerOn = false; // first SETs are issued at power-on (time 0, outside the event loop) instead of after a short wait
 	unsigned extra = 0;       // bit mask of extra parts: 1 wide arithmetic, 2 memory, 4 tristate pin, 8 BLOCK (area with an entity inside), 16 shapes of fixed findings, 32 second edge domain (derived clock, same pin, other trigger edge)
 	uint64_t extraSeed = 0;
 };
+
+// clock frequencies (Hz as a rational): 100 / 125 / 200 MHz have whole-ps periods and half periods; for the others the recorder's
+// ADV values (whole ps, remainder carried) and the test bench's `WAIT FOR <half period truncated to fs>` are inexact
+static const std::pair<uint64_t, uint64_t> kFrequencies[] = {
+	{100'000'000, 1}, {125'000'000, 1}, {200'000'000, 1}, {300'000'000, 1}, {150'000'000, 1}, {600'000'000, 1}, {3'000'000, 1}, {700'000'000, 3}, {1'000'000'000, 7}, {7, 3} };
 
 // ---------------------------------------------------------------------------------------------------------------------
 // extra blocks built next to the designgen recipe (own pins, named x_*)
@@ -341,6 +350,7 @@ static bool runOne(uint64_t k, const vh::Recipe &recipe, const Opts &o, uint64_t
 		auto &attr = clk->getRegAttribs();
 		attr.resetType = o.resetKind == 0 ? hlim::RegisterAttributes::ResetType::NONE : o.resetKind == 1 ? hlim::RegisterAttributes::ResetType::SYNCHRONOUS : hlim::RegisterAttributes::ResetType::ASYNCHRONOUS;
 		attr.resetActive = o.resetLow ? hlim::RegisterAttributes::Active::LOW : hlim::RegisterAttributes::Active::HIGH;
+		if (auto *root = dynamic_cast<hlim::RootClock*>(clk)) root->setFrequency(hlim::ClockRational(kFrequencies[o.freq].first, kFrequencies[o.freq].second));
 		clk->setTriggerEvent(o.trigger == 0 ? hlim::Clock::TriggerEvent::RISING : o.trigger == 1 ? hlim::Clock::TriggerEvent::FALLING : hlim::Clock::TriggerEvent::RISING_AND_FALLING);
 		Extra x;
 		if (o.extra) buildExtras(x, o, *b.clock);
@@ -413,6 +423,15 @@ static bool runOne(uint64_t k, const vh::Recipe &recipe, const Opts &o, uint64_t
 					scanUndefined();
 				}
 			}
+			if (o.endBehindEdge) {
+				// reads right after the last clock edge (registers have advanced), then the run ends 100 ps later: the recorder places
+				// these CHECKs a few ps behind the edge
+				co_await WaitStable();
+				for (auto *p : outPins) if (p->getDriver(0).node) { sim.simProcGetValueOfOutput(p->getDriver(0)); reads++; }
+				scanUndefined();
+				co_await WaitFor(Seconds{100, 1'000'000'000'000ull});
+				sim.abort();
+			}
 		});
 		sim.powerOn();
 		sim.advance(hlim::ClockRational(ncycles + 1, 1) / clock.absoluteFrequency());
@@ -421,7 +440,7 @@ static bool runOne(uint64_t k, const vh::Recipe &recipe, const Opts &o, uint64_t
 		vhdl.reset(); // flushes the recorder
 		stage = "dump";
 		os << "case " << k << " reset=" << o.resetKind << (o.resetLow ? "L" : "H") << " trig=" << o.trigger << " mode=" << o.mode << " areas=" << o.areas << " names=" << o.names
-		   << " style=" << o.style << " undef=" << o.undefStim << " rundef=" << refUndefined << " pon=" << o.setAtPowerOn << " tri=" << ((o.extra & 4) ? (o.triNaive ? 2 : 1) : 0) << " extra=" << o.extra << " ncycles=" << ncycles << " reads=" << reads << " nodes=" << design.getCircuit().getNodes().size() << '\n';
+		   << " style=" << o.style << " undef=" << o.undefStim << " rundef=" << refUndefined << " pon=" << o.setAtPowerOn << " freq=" << kFrequencies[o.freq].first << "/" << kFrequencies[o.freq].second << " ebe=" << o.endBehindEdge << " tri=" << ((o.extra & 4) ? (o.triNaive ? 2 : 1) : 0) << " extra=" << o.extra << " ncycles=" << ncycles << " reads=" << reads << " nodes=" << design.getCircuit().getNodes().size() << '\n';
 		os << "xdesc" << (x.desc.empty() ? " -" : x.desc) << '\n';
 		os << recipe.toString();
 		std::vector<fs::path> files;
@@ -446,7 +465,7 @@ static bool runOne(uint64_t k, const vh::Recipe &recipe, const Opts &o, uint64_t
 
 int main(int argc, char **argv)
 {
-	uint64_t seed = vh::argU64(argc, argv, 1, 1), ncases = vh::argU64(argc, argv, 2, 20), nsteps = vh::argU64(argc, argv, 3, 20), flags = vh::argU64(argc, argv, 4, 0xff), only = vh::argU64(argc, argv, 5, ~0ull);
+	uint64_t seed = vh::argU64(argc, argv, 1, 1), ncases = vh::argU64(argc, argv, 2, 20), nsteps = vh::argU64(argc, argv, 3, 20), flags = vh::argU64(argc, argv, 4, 0xff), only = vh::argU64(argc, argv, 5, ~0ull), longCycles = vh::argU64(argc, argv, 6, 0);
 	std::ios::sync_with_stdio(false);
 	std::cout << "# prop=C02 seed=" << seed << " cases=" << ncases << " nsteps=" << nsteps << " flags=" << flags << "\n";
 	Rng top(seed * 0x100000001b3ull + 2);
@@ -478,6 +497,10 @@ int main(int argc, char **argv)
 		o.extraSeed = rng.next();
 		uint64_t decoSeed = rng.next(), stimSeed = rng.next();
 		size_t ncycles = 6 + rng.below(12);
+		if (flags & 256) o.freq = (unsigned) rng.below(sizeof(kFrequencies) / sizeof(kFrequencies[0]));
+		if (flags & 512) o.endBehindEdge = rng.chance(1, 2);
+		if (o.trigger == 2) o.endBehindEdge = false; // a both-edge clock: the 100 ps tail would be cut by nothing, but keep the variant to single-edge roots
+		if (longCycles) ncycles = longCycles + rng.below(longCycles / 4 + 1);
 		if (only != ~0ull && k != only) continue;
 		runOne(k, recipe, o, decoSeed, stimSeed, ncycles, std::cout);
 	}
